@@ -21,7 +21,7 @@ from vk import chx
 from vk.report import Report, std_args
 
 HARNESS = os.path.join(os.path.dirname(os.path.abspath(__file__)), "h20.py")
-NAMES = ["m_t", "m_u", "m_l", "m_n", "m_c", "ch_t", "u_present", "u_new", "ch_l", "ch_n", "ver_same", "da_old", "da_new", "rx_old", "rx_new", "lib_old", "lib_new", "codegen"]
+NAMES = ["m_t", "m_u", "m_l", "m_n", "m_c", "ch_t", "u_present", "u_new", "ch_l", "ch_n", "ver_same", "da_old", "da_new", "rx_old", "rx_new", "lib_old", "lib_new", "codegen", "ver_near"]
 
 T1 = "model T\n  parameter Real p = 2;\n  Real x(start = 1);\n  Real y;\n  L l;\nequation\n  der(x) = -p * x;\n  y = 2 * x + l.v;\nend T;\n"
 T2 = T1.replace("-p * x", "-3 * p * x")
@@ -70,7 +70,8 @@ def real_stale(a):
         new = dict(old, detect_aliases=bool(a["da_new"]), eliminable_variable_expression=rx[a["rx_new"]], library_folders=lf(a["lib_new"]))
         ver = A.__version__
         if not a["ver_same"]:
-            A.__version__ = "0.0.other"
+            from props import h20 as _h
+            A.__version__ = _h._near_version(ver) if a.get("ver_near") else "0.0.other"
         try:
             A.transfer_model(mdl, "T", dict(old))
         finally:
@@ -208,6 +209,8 @@ def main_c20(a):
         if v.kind not in ("counterexample", "exception"):
             continue
         args, argtxt = decode(v)
+        if len(args) == len(NAMES) - 1:
+            args.append(False)
         if len(args) != len(NAMES):
             rep.harness_error(f"cannot decode counterexample {v.func}({argtxt})")
             continue
@@ -221,7 +224,7 @@ def main_c20(a):
             # setting of the flags and option indices) for a concrete failing tuple before giving up.
             import itertools
             found = None
-            bidx = [NAMES.index(k) for k in ("ch_t", "u_present", "u_new", "ch_l", "ch_n", "ver_same", "da_old", "da_new")]
+            bidx = [NAMES.index(k) for k in ("ch_t", "u_present", "u_new", "ch_l", "ch_n", "ver_same", "da_old", "da_new", "ver_near")]
             ridx = [NAMES.index(k) for k in ("rx_old", "rx_new")]
             for bits in itertools.product((False, True), repeat=len(bidx)):
                 for rx in itertools.product(range(3), repeat=2):
@@ -236,7 +239,7 @@ def main_c20(a):
                         continue
                     if v.func == "stale_other" and f_["lib_old"] == f_["lib_new"]:
                         continue
-                    if getattr(h20, "_stale")(*cand, v.func == "stale") != 1:
+                    if getattr(h20, "_stale")(*cand[:-1], v.func == "stale", cand[-1]) != 1:
                         found = cand
                         break
                 if found:
@@ -246,7 +249,7 @@ def main_c20(a):
                 continue
             args = found
         f = dict(zip(NAMES, args))
-        only_lib = (f["lib_old"] != f["lib_new"] and not (f["ch_t"] or (f["u_present"] and f["u_new"]) or f["ch_l"] or f["ch_n"])
+        only_lib = (f["lib_old"] != f["lib_new"] and not (f["ch_t"] or (f["u_present"] and f["u_new"]) or (f["lib_new"] != 0 and (f["ch_l"] or f["ch_n"])))
                     and f["ver_same"] and f["da_old"] == f["da_new"] and f["rx_old"] == f["rx_new"])
         real = None
         if not f["codegen"]:
@@ -277,7 +280,7 @@ def main_c20(a):
     cov["exhaustive"] = all(v.kind in ("confirmed",) or (v.kind == "counterexample") for v in vs)
     cov["functions_encoded"] = ["casadi.api.transfer_model, load_model (mtime walk, version check, options check, fall-through to recompilation) executed symbolically by CrossHair"]
     cov["bounds"] = ("one transfer_model step from an arbitrary folder state: T.mo, an optional second (old or newly added) file, a library folder with a file and a sub-folder file; "
-                     "all mtimes unbounded integers; version same/different; a Boolean and a string-or-None option old vs new; library_folders in {[], [lib], [lib2]} old vs new; cache and codegen")
+                     "all mtimes unbounded integers; version same / other release / same public version with another local label; a Boolean and a string-or-None option old vs new; library_folders in {[], [lib], [lib2]} old vs new; cache and codegen")
     rep.assumptions += ["stubs: os.walk, os.path.getmtime, open, pickle.load (returns a real db written by a real save_model with the symbolic version/options patched in), "
                         "_compile_model -> token, save_model -> recorder, casadi.external -> the cached Function",
                         "premise of the property: a file whose content differs from what the cache was built from is strictly newer than the cache file",
